@@ -6,24 +6,29 @@ from ..core import sig_of
 from ..tla import VERIF
 
 LEVEL = "model_checking"
-LEVEL_TEXT = ("trace log: TLC model-checks the recorder specification (per-thread event sequences, nesting) together with the laws of the "
-              "log contract on every reachable bounded state - every log a correct saveLog may write is accepted, every log with one "
-              "deleted / duplicated / altered / swapped / re-threaded relevant entry is rejected, accepted logs are properly nested per tid, "
-              "and the incremental matcher used for trace validation decides exactly the declarative contract; every state of the "
-              "generation instance (all event sequences up to the bound on 1..3 threads, the empty log, with and without process name) is "
-              "reached on the real recorder, one process per history, the file is parsed by a strict JSON reader and the relevant entries "
-              "per tid are compared with the sequences TLC computed; the same runs and driver-generated long concurrent logs (exactly one "
-              "storage chunk, one more, one less, three chunks, up to 8 threads) are validated by TLC against the trace specification. "
+LEVEL_TEXT = ("trace log: TLC model-checks the recorder specification (per-thread event sequences, nesting, thread lifetimes: created / ended, "
+              "the ended-before-created relation) together with the laws of the log contract on every reachable bounded state - every log a "
+              "correct saveLog may write is accepted (a tid per thread, or one tid shared by threads that never coexisted, in the order they "
+              "lived), every log with one deleted / duplicated / altered / swapped relevant entry, with all entries of one thread lost, with "
+              "coexisting threads under one tid or a chain in the wrong order is rejected, accepted logs are properly nested per tid, and the "
+              "incremental matcher used for trace validation decides exactly the declarative contract; the states of the two generation "
+              "instances (all event sequences up to the bound on 1..3 threads living until saveLog; shorter sequences with threads that end "
+              "and are followed by or overlap later threads; the empty log; with and without process name) are reached on the real recorder, "
+              "one process per history, the file is parsed by a strict JSON reader and the relevant entries per tid are compared with the "
+              "admissible contents TLC computed; the same runs and driver-generated long logs (concurrent: exactly one storage chunk, one "
+              "more, one less, three chunks, up to 8 threads; sequential: up to 16 threads created one after the other beside a long-lived "
+              "thread) are validated by TLC against the trace specification. "
               "images: TLC checks the laws of the index map of each of the six writers on the whole bounded domain (in-bounds, bijection "
               "between payload positions and selected input components, row involution, header channels), enumerates every size of the "
               "domain, and every case is written by the real writer from an exact-size heap block under ASan/UBSan and decoded by an "
               "independent reader (exhaustive over the bounded domain)")
 LEVEL_NOTE = ("bounded: images - sizes 1..3 x 1..3, 5x2, 1x7, 7x1 (thorough: + 16x9, 2x33, 33x2, 64x3), one injective pixel content per "
               "size (pairwise distinct component codes), exact-size and guard-padded buffers; trace log - all event sequences of total "
-              "length <= 5 (thorough 6) on <= 3 threads with nesting depth <= 3 and names / categories / counter values chosen by position, "
-              "law checking on 2 threads x 4 events (thorough 3 x 4), long logs of 0, 1, 8191, 8192, 8193, 16384, 16385, 24576 events per "
+              "length <= 5 (thorough 6) on <= 3 threads living until saveLog and of total length <= 3 (thorough 4) with every pattern of "
+              "thread lifetimes, nesting depth <= 3, names / categories / counter values chosen by thread and position, "
+              "law checking on 2 threads x 3 events (thorough 3 x 3 in creation order and 2 x 4), long logs of 0, 1, 8191, 8192, 8193, 16384, 16385, 24576 events per "
               "thread on 1..8 concurrently recording threads.  Not covered (not in the statement): names needing JSON escaping, counter "
-              "values >= 2^31, time stamps, cpu statistics, thread names, threads that end before saveLog (thread-id reuse), endEvent "
+              "values >= 2^31, time stamps, cpu statistics, thread names, detached threads, endEvent "
               "without a begin, unwritable paths.  Trusted: TLC, the drivers' independent PNM/PFM reader and strict JSON reader, the "
               "injective code <-> byte / float mapping, ASan/UBSan as the observation of out-of-bounds reads, g++/libstdc++")
 TECHNIQUE = ("TLA+ ADT specification of the trace recorder + contract laws model-checked by TLC; state-graph histories replayed on the real "
@@ -49,9 +54,17 @@ def canon_threads(th):
 
 
 def canon_history(h):
+    """SaveLog steps: the list of admissible log contents (exp.alt) is moved beside exp (the driver reports one content, not
+    a list) and every list of per-tid sequences is brought into the canonical order"""
     for st in h:
-        if st.get("a") == "SaveLog" and isinstance(st.get("exp", {}).get("threads"), list):
-            st["exp"]["threads"] = canon_threads(st["exp"]["threads"])
+        if st.get("a") == "SaveLog":
+            e = st.get("exp", {})
+            if "alt" in e:
+                st["alt"] = e.pop("alt")
+            if isinstance(e.get("threads"), list):
+                e["threads"] = canon_threads(e["threads"])
+            if isinstance(st.get("alt"), list):
+                st["alt"] = [canon_threads(a) for a in st["alt"]]
     return h
 
 
@@ -61,6 +74,28 @@ def canon_results(res):
             if isinstance(o, dict) and isinstance(o.get("threads"), list):
                 o["threads"] = canon_threads(o["threads"])
     return res
+
+
+def resolve_alternatives(histories, res):
+    """deep equality against each admissible content TLC listed: when the observed per-tid sequences equal one of the
+    alternatives, that alternative is what the step is compared with; otherwise the tid-per-thread content stays and
+    the comparison reports the difference"""
+    shared = 0
+    for i, h in enumerate(histories):
+        obs = (res.get(i) or {}).get("obs") or []
+        for k, st in enumerate(h):
+            if st.get("a") != "SaveLog" or "alt" not in st or k >= len(obs) or not isinstance(obs[k], dict):
+                continue
+            o = obs[k].get("threads")
+            if o is None:
+                continue
+            for a in st["alt"]:
+                if a == o:
+                    if a != st["exp"]["threads"]:
+                        shared += 1
+                    st["exp"]["threads"] = a
+                    break
+    return shared
 
 
 # ---------------------------------------------------------------------------
@@ -193,9 +228,14 @@ def graph_from_edges(chk, cfg, tag):
     return ag, r
 
 
-def histories_from_graph(ag, seed, walks, walk_len):
-    """One history per abstract state (BFS path to it, then SaveLog): both process-name variants for states with at most two
-    recorded events, alternating otherwise; plus seeded random walks (SaveLog in the middle, recording continues)."""
+def settled(st):
+    """every created thread has recorded something (a created thread that has not touched the recorder yet is invisible to it)"""
+    return all(ph == "new" or rc for ph, rc in zip(st["phase"], st["rec"]))
+
+
+def histories_from_graph(ag, seed, walks, walk_len, select):
+    """One history per selected abstract state (BFS path to it, then SaveLog): both process-name variants for states with at
+    most two recorded events, alternating otherwise; plus seeded random walks (SaveLog in the middle, recording continues)."""
     parent = {}
     dq = deque()
     for s in ag.init:
@@ -218,22 +258,30 @@ def histories_from_graph(ag, seed, walks, walk_len):
         return p
 
     hs = []
+    nsel = 0
     for n, s in enumerate(sorted(parent)):
+        if not select(ag.states[s]):
+            continue
+        nsel += 1
         base = path_to(s)
         saves = [step for step, d in ag.edges.get(s, []) if step["a"] == "SaveLog"]
         if len(saves) != 2:
             raise tla.InfraError("state without its two SaveLog transitions")
-        pick = saves if len(base) <= 2 else [saves[n % 2]]
+        pick = saves if sum(1 for st in base if st["a"] in RECORDING) <= 2 else [saves[n % 2]]
         for sv in pick:
             hs.append(base + [sv])
     rw = [w for w in adt.random_walks(ag, walks, walk_len, seed) if any(st["a"] == "SaveLog" for st in w)]
-    return hs, rw, len(parent)
+    return hs, rw, nsel
+
+
+def life_lines(o):
+    return [{"e": "Thread", "t": e[0], "born": e[1], "died": e[2]} for e in o.get("life", [])]
 
 
 def lines_of_short(h, obs):
     """format conversion: a replayed history with exactly one SaveLog at its end + the driver's raw log -> trace lines"""
-    nthreads = max([st["arg"]["t"] for st in h if st["a"] in RECORDING] or [0])
-    lines = [{"e": "Start", "threads": nthreads}]
+    nthreads = max([st["arg"]["t"] for st in h if st["a"] in RECORDING or st["a"] == "ThreadStart"] or [0])
+    lines = [{"e": "Start", "threads": nthreads}] + life_lines(obs[-1])
     kind = {"Begin": "B", "End": "E", "Marker": "i", "Counter": "C"}
     for t in range(1, nthreads + 1):
         for st in h:
@@ -254,36 +302,42 @@ def log_lines(o):
 
 
 def lines_of_long(acts, r):
-    """a recorded execution (RunThreads? then SaveLog) -> trace lines"""
+    """a recorded execution (RunThreads / RunSequential, then SaveLog) -> trace lines"""
     if "crash" in r or "timeout" in r:
         kind = "crash" if "crash" in r else "timeout"
         k = r[kind].get("step", 0)
         return [{"e": "Start", "threads": 0}, {"e": kind, "during": acts[k]["a"] if 0 <= k < len(acts) else None, "obs": r[kind]}]
     obs = r["obs"]
     lines = []
-    nthreads = 0
+    recs = []
     for st, o in zip(acts, obs):
         if "unexpected_exception" in o:
             lines.append({"e": "crash", "during": st["a"], "obs": o})
             break
-        if st["a"] == "RunThreads":
-            nthreads = len(o["rec"])
-            lines.append({"e": "Start", "threads": nthreads})
-            for t, evs in enumerate(o["rec"], 1):
+        if st["a"] in ("RunThreads", "RunSequential"):
+            recs = o["rec"]
+        elif st["a"] == "SaveLog":
+            lines.append({"e": "Start", "threads": len(recs)})
+            lines += life_lines(o)
+            for t, evs in enumerate(recs, 1):
                 for e in evs:
                     lines.append({"e": "Rec", "t": t, "k": e[0], "name": e[1], "cat": e[2], "val": e[3]})
-        elif st["a"] == "SaveLog":
-            if not lines:
-                lines.append({"e": "Start", "threads": 0})
             lines.append({"e": "Save", "pname": st["arg"]["pname"]})
             lines += log_lines(o)
     return lines
 
 
+def sequential_in(lines):
+    """two recording threads of which one had ended before the other was created (labelling only)"""
+    rec = {ln["t"] for ln in lines if ln["e"] == "Rec"}
+    life = [ln for ln in lines if ln["e"] == "Thread" and ln["t"] in rec]
+    return any(a["died"] > 0 and a["died"] < b["born"] for a in life for b in life)
+
+
 def cls_of_lines(lines):
     empty = not any(ln["e"] == "Rec" for ln in lines)
     pn = next((ln["pname"] for ln in lines if ln["e"] == "Save"), "")
-    return ("log=empty" if empty else "log=nonempty") + (",pname=none" if pn == "" else ",pname=given")
+    return ("log=empty" if empty else "log=nonempty") + (",pname=none" if pn == "" else ",pname=given") + (",threads=sequential" if sequential_in(lines) else "")
 
 
 def validate_executions(chk, execs, tag, sources, timeout=2400):
@@ -382,6 +436,20 @@ def long_configs(quick, rnd):
     out = []
     for name, progs, pname in cfgs:
         out.append((name, [{"a": "RunThreads", "arg": {"progs": progs}}, {"a": "SaveLog", "arg": {"pname": pname, "raw": True}}]))
+    # threads that follow one another (created right after the previous one was joined: the OS recycles the std::thread::id),
+    # beside a thread that lives through all of them
+    seq = [
+        ("sequential-16", prog(40, tname="lead"), [prog(rnd.randint(2, 9), tname=("s%d" % i if i % 3 == 0 else "")) for i in range(16)], ""),
+        ("sequential-16-nolead", None, [prog(rnd.randint(1, 6)) for i in range(16)], "proc"),
+        ("sequential-chunk-boundary", prog(10), [prog(CHUNK - 150), prog(400), prog(1), prog(CHUNK), prog(3)], ""),
+        ("sequential-2", None, [prog(1), prog(1)], ""),
+    ]
+    if not quick:
+        for i in range(12):
+            seq.append(("sequential-random-%d" % i, prog(rnd.choice([0, 1, 30, 500])) if rnd.random() < 0.6 else None,
+                        [prog(rnd.choice([0, 1, 2, 5, 50, 700])) for _ in range(rnd.randint(2, 16))], rnd.choice(["", "p"])))
+    for name, lead, workers, pname in seq:
+        out.append((name, [{"a": "RunSequential", "arg": {"lead": lead, "workers": workers}}, {"a": "SaveLog", "arg": {"pname": pname, "raw": True}}]))
     # the empty log through the same path: nothing recorded at all
     out.append(("empty-proc", [{"a": "SaveLog", "arg": {"pname": "proc", "raw": True}}]))
     out.append(("empty-none", [{"a": "SaveLog", "arg": {"pname": "", "raw": True}}]))
@@ -402,9 +470,24 @@ def record_long(chk, exe, cfgs, tag, meta, nproc):
         nev += sum(1 for ln in lines if ln["e"] == "Rec")
         execs.append(lines)
         sources.append({"name": cfgs[i][0], "actions": a})
+        note_lifetimes(chk, sequential_in(lines), len({ln["t"] for ln in lines if ln["e"] == "Rec"}), (r.get("obs") or [{}])[-1])
     chk.log("recorded %d long executions on the real recorder (%d recorded events) in %.1fs" % (len(acts), nev, wall))
     chk.cov["evaluations"] += len(acts)
     return execs, sources, nev
+
+
+def note_lifetimes(chk, sequential, n_recording, o):
+    """coverage numbers (observations, never verdicts): executions in which two recording threads did not overlap, in which the
+    OS handed a std::thread::id out twice, and in which the log shows fewer tids than recording threads"""
+    lt = chk.cov.setdefault("thread_lifetimes", {"executions_with_sequential_recording_threads": 0, "executions_with_recycled_thread_id": 0,
+                                                 "executions_with_shared_tid": 0})
+    if sequential:
+        lt["executions_with_sequential_recording_threads"] += 1
+    if isinstance(o, dict):
+        if o.get("threads_created", 0) > o.get("thread_ids_distinct", 0):
+            lt["executions_with_recycled_thread_id"] += 1
+        if o.get("json") == "wellformed" and isinstance(o.get("threads"), list) and 0 < len(o["threads"]) < n_recording:
+            lt["executions_with_shared_tid"] += 1
 
 
 # ---------------------------------------------------------------------------
@@ -449,37 +532,62 @@ def run_tracelog(chk, quick, tmp, rnd):
         try:
             cfg = "TraceLogMC.cfg" if quick else "TraceLogMC_thorough.cfg"
             mc["r"] = tla.run_tlc(os.path.join(SPEC_LOG, "TraceLogMC.tla"), os.path.join(SPEC_LOG, cfg), workers=6, timeout=3000, tag="c20-mc")
+            if not quick:
+                mc["r2"] = tla.run_tlc(os.path.join(SPEC_LOG, "TraceLogMC.tla"), os.path.join(SPEC_LOG, "TraceLogMC_thorough2.cfg"), workers=6,
+                                       timeout=3000, tag="c20-mc2")
             mc["neg"] = tla.run_tlc(os.path.join(SPEC_LOG, "TraceLogMC.tla"), os.path.join(SPEC_LOG, "TraceLogMC_neg.cfg"), workers=2, timeout=900,
                                     tag="c20-mc-neg")
+            mc["neg2"] = tla.run_tlc(os.path.join(SPEC_LOG, "TraceLogMC.tla"), os.path.join(SPEC_LOG, "TraceLogMC_neg2.cfg"), workers=2, timeout=900,
+                                     tag="c20-mc-neg2")
         except Exception as ex:
             mc["ex"] = ex
     th = threading.Thread(target=run_mc)
     th.start()
 
-    # 2. spec -> code: every state of the generation instance, one process per history
-    gcfg = "TraceLogGen.cfg" if quick else "TraceLogGen_thorough.cfg"
-    ag, r = graph_from_edges(chk, gcfg, "c20-gen")
-    chk.add_model("TraceLogGen/" + gcfg, r,
-                  "generation instance: %d abstract states (tuples of per-thread event sequences), %d abstract transitions; "
-                  "action properties GSaveAgrees, GRecordAgrees" % (len(ag.states), ag.nedges))
-    hs, rw, nstates = histories_from_graph(ag, chk.seed, 300 if quick else 3000, 12)
+    # 2. spec -> code: the states of the two generation instances, one process per history
+    #    (a) every thread alive until saveLog, longer sequences; (b) threads that end and are followed by others, shorter sequences
+    hs, rw = [], []
+    geninfo = {}
+    for gcfg, select, what in [
+        ("TraceLogGen.cfg" if quick else "TraceLogGen_thorough.cfg", settled, "all threads live until saveLog"),
+        ("TraceLogGenLife.cfg" if quick else "TraceLogGenLife_thorough.cfg", lambda st: settled(st) and "done" in st["phase"],
+         "threads end, later threads are created after them or beside them"),
+    ]:
+        ag, r = graph_from_edges(chk, gcfg, "c20-gen")
+        chk.add_model("TraceLogGen/" + gcfg, r,
+                      "generation instance (%s): %d abstract states (per-thread event sequences, thread phases, ended-before-created "
+                      "relation), %d abstract transitions; action properties GSaveAgrees, GLifeAgrees, GRecordAgrees" % (what, len(ag.states), ag.nedges))
+        h1, w1, nsel = histories_from_graph(ag, chk.seed, 300 if quick else 3000, 14, select)
+        geninfo[gcfg] = {"abstract_states": len(ag.states), "abstract_transitions": ag.nedges, "states_with_history": nsel,
+                         "state_histories": len(h1), "random_walks_with_save": len(w1), "walk_len": 14}
+        hs += h1
+        rw += w1
     hs = [canon_history(h) for h in sort_keys(hs)]
     rw = [canon_history(h) for h in sort_keys(rw)]
     allh = hs + rw
     chk.count_actions(allh)
-    chk.require_actions(["Begin", "End", "Marker", "Counter", "SaveLog"])
+    chk.require_actions(["ThreadStart", "ThreadExit", "Begin", "End", "Marker", "Counter", "SaveLog"])
     classes = {st["cls"] for h in allh for st in h if st["a"] == "SaveLog"}
-    need = {"log=empty,pname=none", "log=empty,pname=given", "log=nonempty,pname=none", "log=nonempty,pname=given"}
+    need = {"log=empty,pname=none", "log=empty,pname=given", "log=nonempty,pname=none", "log=nonempty,pname=given",
+            "log=nonempty,pname=none,threads=sequential", "log=nonempty,pname=given,threads=sequential"}
     if not need <= classes:
         raise tla.InfraError("vacuity guard: SaveLog classes never exercised: %s" % sorted(need - classes))
-    chk.cov["generation_TraceLog"] = {"abstract_states": nstates, "abstract_transitions": ag.nedges, "state_histories": len(hs),
-                                      "random_walks_with_save": len(rw), "walk_len": 12}
-    res, rc, stderr, wall = run_parallel(exe, allh, "c20-log", 8, meta)
+    chk.cov["generation_TraceLog"] = geninfo
+    res, rc, stderr, wall = run_parallel(exe, allh, "c20-log", 12, meta)
     canon_results(res)
+    shared = resolve_alternatives(allh, res)
     n = report_mismatches(chk, allh, res, rc, stderr, "c20-log", "tracing", meta, exe)
-    chk.log("tracing: %d histories (one process each) replayed on the real recorder (%d mismatching) in %.1fs" % (len(allh), n, wall))
+    chk.log("tracing: %d histories (one process each) replayed on the real recorder (%d mismatching; %d observed logs in which threads "
+            "that never coexisted share a tid) in %.1fs" % (len(allh), n, shared, wall))
+    for i, h in enumerate(allh):
+        o = ((res.get(i) or {}).get("obs") or [{}])[-1]
+        seq = any("threads=sequential" in st.get("cls", "") for st in h if st["a"] == "SaveLog")
+        note_lifetimes(chk, seq, len({st["arg"]["t"] for st in h if st["a"] in RECORDING}), o if h[-1]["a"] == "SaveLog" else None)
     chk.cov["distinct_nontrivial"] += adtcheck._nontrivial_distinct(allh, RECORDING)
-    chk.add_sample({"kind": "history", "object": "trace recorder", "steps": hs[len(hs) // 2]}, maxn=8)
+    chk.add_sample({"kind": "history", "object": "trace recorder", "steps": hs[len(hs) // 3]}, maxn=8)
+    smp = next((h for h in hs if "threads=sequential" in h[-1].get("cls", "") and len(h[-1].get("alt", [])) >= 2), None)
+    if smp:
+        chk.add_sample({"kind": "history", "object": "trace recorder, threads that follow one another", "steps": smp}, maxn=8)
 
     # 3. code -> spec: the same runs (raw logs) ...
     idx = [i for i, h in enumerate(hs) if i in res and "obs" in res[i] and len(res[i]["obs"]) == len(h)]
@@ -490,7 +598,7 @@ def run_tracelog(chk, quick, tmp, rnd):
     # ... and long concurrent logs across the storage-chunk boundary
     cfgs = long_configs(quick, rnd)
     execs, sources, nev = record_long(chk, exe, cfgs, "c20-long", meta, 4)
-    chk.require_actions(["RunThreads"])
+    chk.require_actions(["RunThreads", "RunSequential"])
     sizes = sorted({p["n"] for c in cfgs for st in c[1] if st["a"] == "RunThreads" for p in st["arg"]["progs"]})
     for must in (CHUNK - 1, CHUNK, CHUNK + 1, 3 * CHUNK, 0, 1):
         if must not in sizes:
@@ -498,6 +606,15 @@ def run_tracelog(chk, quick, tmp, rnd):
     chk.cov["long_logs"] = {"executions": len(cfgs), "recorded_events": nev, "events_per_thread": sizes,
                             "max_threads": max(len(st["arg"]["progs"]) for c in cfgs for st in c[1] if st["a"] == "RunThreads")}
     rejected = validate_executions(chk, execs, "c20-long", sources)
+    lt = chk.cov["thread_lifetimes"]
+    if lt["executions_with_sequential_recording_threads"] == 0:
+        raise tla.InfraError("vacuity guard: no executed history had two recording threads of which one ended before the other was created")
+    if lt["executions_with_recycled_thread_id"] == 0:
+        chk.note("infrastructure: the OS never handed a std::thread::id out twice in this run (%d executions with threads that follow one "
+                 "another): what the recorder does with a recycled id was not exercised" % lt["executions_with_sequential_recording_threads"])
+    chk.log("thread lifetimes: %d executions with recording threads that follow one another, %d in which a std::thread::id was recycled, "
+            "%d in which threads share a tid in the log" % (lt["executions_with_sequential_recording_threads"],
+                                                             lt["executions_with_recycled_thread_id"], lt["executions_with_shared_tid"]))
     ctl = next(i for i, c in enumerate(cfgs) if c[0] == "control")
     if rejected and (ctl in rejected or ctl > max(rejected)):
         chk.note("corrupted-trace control skipped: the control execution itself was rejected or not reached")
@@ -512,11 +629,18 @@ def run_tracelog(chk, quick, tmp, rnd):
     if "ex" in mc:
         raise mc["ex"]
     chk.require_model_ok("TraceLogMC/" + ("TraceLogMC.cfg" if quick else "TraceLogMC_thorough.cfg"), mc["r"],
-                         "recorder invariants + AcceptLaw, RejectLaw, NestLaw, EquivLaw, EmptyLaw in every reachable state")
+                         "recorder + lifetime invariants, AcceptLaw, RejectLaw (incl. lost thread, coexisting threads under one tid, "
+                         "wrong chain order), NestLaw, EquivLaw, AltLaw, EmptyLaw in every reachable state")
+    if "r2" in mc:
+        chk.require_model_ok("TraceLogMC/TraceLogMC_thorough2.cfg", mc["r2"], "the same laws, 2 threads x 4 events, every creation order")
     if mc["neg"].violated != "RetagAlwaysRejected":
         raise tla.InfraError("negative control TraceLogMC_neg.cfg did not fail as expected: violated=%s error=%s" % (mc["neg"].violated, mc["neg"].error))
     chk.cov["models"].append({"module": "TraceLogMC/TraceLogMC_neg.cfg", "expected_violation": "RetagAlwaysRejected",
                               "what": "negative control: tids are identified only up to renaming"})
+    if mc["neg2"].violated != "OneTidPerThread":
+        raise tla.InfraError("negative control TraceLogMC_neg2.cfg did not fail as expected: violated=%s error=%s" % (mc["neg2"].violated, mc["neg2"].error))
+    chk.cov["models"].append({"module": "TraceLogMC/TraceLogMC_neg2.cfg", "expected_violation": "OneTidPerThread",
+                              "what": "negative control: threads that never coexisted may share a tid"})
 
 
 def run(chk, replay=None):
@@ -529,8 +653,11 @@ def run(chk, replay=None):
         "a file is decodable when magic, width, height and maxval / scale parse, one whitespace byte follows and the payload holds all "
         "samples; PFM samples are decoded as the scale token says (sign = byte order, magnitude = factor); bytes after the payload are ignored",
         "out-of-bounds reads are observed through AddressSanitizer on a heap block of exactly width*height pixels",
-        "a recording thread is a std::thread alive until saveLog returns; the tid a thread gets in the log is not constrained; entries with "
-        "ph = M and counters whose name no recorded counter uses are ignored; for end entries only the kind is constrained",
+        "a recording thread is a joinable std::thread created and joined by the driver's main thread, which stamps both on one logical "
+        "clock; threads of which one was joined before the other was created may share a tid in the log (the OS recycles std::thread::id), "
+        "their sequences then follow one another in that order; threads alive at the same time must have different tids; which tid a "
+        "thread gets is not constrained; entries with ph = M and counters whose name no recorded counter uses are ignored; for end "
+        "entries only the kind is constrained",
         "names are plain ASCII without characters needing JSON escaping; counter values < 2^31; one stable pointer per distinct name text",
     ]
     if replay:
@@ -543,7 +670,8 @@ def run(chk, replay=None):
         shutil.rmtree(tmp, ignore_errors=True)
     chk.cov["rule"] = ("image cases: TLC enumerates writer x size x buffer kind after checking the index-map laws; a case is non-trivial when the "
                        "image has more than one pixel; distinct = distinct (writer, width, height, buffer).  trace-log histories: one shortest "
-                       "path of TLC's complete state graph to every abstract state followed by SaveLog (both process-name variants up to two "
+                       "path of TLC's complete state graph to every abstract state in which every created thread has recorded (second instance: "
+                       "and some thread has ended), followed by SaveLog (both process-name variants up to two "
                        "events, alternating beyond), plus seeded random walks containing a SaveLog; one process per history; non-trivial = "
                        "records at least one event; distinct = distinct (action, argument) sequences.  recorded executions: the short "
                        "histories' raw logs and seeded long concurrent logs, each validated by TLC; counted non-trivial when at least one "
@@ -562,6 +690,7 @@ def do_replay(chk, path):
             h = [canon_history(rep["history"])]
             res, rc, stderr, wall = run_parallel(exe, h, "replay", 1, meta)
             canon_results(res)
+            resolve_alternatives(h, res)
             report_mismatches(chk, h, res, rc, stderr, "replay", rep["sig_prefix"], meta, exe)
         else:
             exe = build.build("drv_tracelog", san=SAN)
